@@ -14,7 +14,7 @@ use crate::sched::{self, Rng, Worker};
 pub const NFIELD: usize = 2;
 pub const NCELL: usize = 3;
 pub const NWCELL: usize = 2;
-pub const NSLOT: usize = 12;
+pub const NSLOT: usize = 32;
 
 // ------------------------------------------------------------------------------------------
 // payload type and its life-cycle counters
